@@ -509,7 +509,7 @@ ASMLINE_REF = {"Instruction": "payload0.nb_bytes", "Inline": "payload1", "Label"
 
 
 @rule("T-ASMLINE-SIBLINGS", floor=3,
-      text="size_bytes and both distance walks of check_branches give every AsmLine variant the same byte contribution: Instruction -> nb_bytes, Inline -> declared size, Label/Comment/Dummy -> 0")
+      text="size_bytes and both distance walks of check_branches give every AsmLine variant the same byte contribution: Instruction -> nb_bytes, Inline -> declared size, Label/Comment/Dummy -> 0; all the arms of one walk add to one and the same counter (the walk upwards to bytes_above, the walk downwards to bytes_below)")
 def t_asmline_siblings(facts, res, tier):
     fns = [facts.fn("size_bytes", "AssemblyCode"), facts.fn("check_branches", "AssemblyCode")]
     for fn in fns:
@@ -518,6 +518,10 @@ def t_asmline_siblings(facts, res, tier):
         if len(tabs) < want_n:
             raise AnchorMissing("%s: expected %d byte-accumulating match(es) over AsmLine, found %d" % (fn["name"], want_n, len(tabs)))
         for i, (m, table, accs) in enumerate(tabs):
+            key = "T-ASMLINE-SIBLINGS:%s:%d:one-accumulator" % (fn["name"], i)
+            res.inst(key, True, {"fn": fn["name"], "acc": sorted(accs)})
+            if len(accs) != 1:
+                res.fail(key, facts.where(fn, m), "%s: the arms of one walk over the lines add to different counters (%s): the bytes of one kind of line are counted on the other side of the branch" % (fn["name"], ", ".join(sorted(accs))))
             for var, want in ASMLINE_REF.items():
                 got = table.get(var, table.get("_", "0"))
                 key = "T-ASMLINE-SIBLINGS:%s:%d:%s" % (fn["name"], i, var)
